@@ -162,7 +162,13 @@ def main(argv):
     jobs = jobs_for(prop)
     nproc = int(os.environ.get('PYVC_JOBS', '16'))
     with multiprocessing.Pool(min(nproc, max(1, len(jobs)))) as pool:
-        results = pool.map(worker, jobs, chunksize=1)
+        results = []
+        for r in pool.imap_unordered(worker, jobs, chunksize=1):
+            results.append(r)
+            if os.environ.get('PYVC_VERBOSE'):
+                print('  unit %-70s %-8s %-9s %3d obs %6.1fs %s' % (r['name'][-70:], r['config'], r['status'],
+                                                                  len(r['obs']), r['time'], r['reason'][:100]))
+        results.sort(key=lambda r: (r['name'], r['config']))
     kf = load_known(prop)
     violations = []
     undecided = []
